@@ -247,10 +247,23 @@ def vsl_layouts(M, rec, rng, nmax, k=0, n=1):
             exp = list(Ve)
             for j, c in zip(vsl, vc):
                 exp[j] = min(Ve[j], (1 + alpha) * c)
+            # the list of limited segments may be written in any order (limits in the same order), the last
+            # segment also Python-style as -1
+            order = list(range(len(vsl)))
+            listing = "ascending"
+            if len(vsl) >= 2 and rng.random() < 0.5:
+                rng.shuffle(order)
+                listing = "any order"
+            vsl_w = [vsl[j] for j in order]
+            vc_w = [vc[j] for j in order]
+            if vsl_w and (N - 1) in vsl_w and rng.random() < 0.3:
+                vsl_w[vsl_w.index(N - 1)] = -1
+                listing += ", last segment as -1"
+            rec.seen("vsl_listing_forms", listing)
             for side, E in (("numpy", EN), ("casadi", EC)):
                 rec.count("vsl_layout_calls")
                 try:
-                    out = E.LinksEngine.controlled_Veq(vec(rho, side), vec(vc, side), list(vsl), alpha, p["v_free"], p["rho_crit"], p["a"])
+                    out = E.LinksEngine.controlled_Veq(vec(rho, side), vec(vc_w, side), list(vsl_w), alpha, p["v_free"], p["rho_crit"], p["a"])
                     got = [float(t) for t in np.asarray(out, dtype=float).ravel()]
                 except Exception as e:
                     rec.violation(f"{PROP}:controlled_Veq: {side} implementation raised {type(e).__name__} for a set of limited segments",
@@ -258,7 +271,7 @@ def vsl_layouts(M, rec, rng, nmax, k=0, n=1):
                     continue
                 if len(got) != N or any(abs(a - b) > 1e-9 * (1 + abs(b)) for a, b in zip(got, exp)):
                     rec.violation(f"{PROP}:controlled_Veq: {side} result is not min(Veq, (1+alpha) limit) on exactly the limited segments",
-                                  {"side": side, "segments": N, "limited": vsl, "got": got, "expected": exp})
+                                  {"side": side, "segments": N, "limited_as_listed": vsl_w, "limits_as_listed": vc_w, "got": got, "expected": exp})
     rec.extra["exhaustive_vsl_layouts_up_to_segments"] = nmax
 
 
